@@ -1203,7 +1203,92 @@ def contract_coll(case):
     return check_queries(x, case, tag + "/seq", sig, P, 0, pos, rev, st, fdict)
 
 
+# ================================================================================================ union / shadow of features
+FA_RAW = "ACGTTGCAAGGCTTAACCGGATATCGCGTAGGATCCAT"
+FA_FEATS = {"gene": ([(8, 30)], "+"), "exon1": ([(10, 14)], "+"), "exon2": ([(18, 24)], "+"), "utr": ([(26, 34)], "+"),
+            "far": ([(35, 37)], "+"), "mgene": ([(4, 28)], "-"), "mcds": ([(6, 9), (15, 20)], "-"),
+            "inner2": ([(11, 13), (19, 22)], "+")}
+FA_GROUPS = [["exon1", "exon2", "far"], ["gene", "utr"], ["gene", "exon1"], ["exon1", "gene", "exon2", "utr"], ["mgene", "mcds"],
+             ["gene", "inner2"], ["exon2", "gene"], ["utr", "far", "gene"], ["inner2", "exon1", "exon2"]]
+FA_VIEWS = [["whole"], ["rc"], ["s", 3, 36], ["s", 3, 36, "rc"], ["rc", "s", 2, 35], ["s", 9, 29], ["s", 12, 20, "rc"]]
+
+
+def gen_feature_algebra(tier, seed):
+    for new in (False, True):
+        for view in FA_VIEWS:
+            for grp in FA_GROUPS:
+                yield [new, view, grp]
+
+
+def contract_feature_algebra(case):
+    """Feature.union / shadow: the merged feature denotes the union of the residues its parts denote (restricted to what
+    the view retains, read on the first feature's strand); its shadow denotes every other retained residue"""
+    from cogent3 import make_seq
+    new, view, grp = case
+    tag = f"algebra/{'new' if new else 'old'}"
+    seq = make_seq(FA_RAW, name="s_1", moltype="dna", new_type=new)
+    for name, (spans, strand) in FA_FEATS.items():
+        seq.add_feature(biotype="region", name=name, spans=[list(x) for x in spans], strand=strand)
+    lo, hi, x = 0, len(FA_RAW), seq
+    try:
+        if view[0] == "rc":
+            x = x.rc()
+            if len(view) > 1:             # slice of the reverse complement: view positions a..b show plus positions L-b..L-a
+                a, b = view[2], view[3]
+                x = x[a:b]
+                lo, hi = len(FA_RAW) - b, len(FA_RAW) - a
+        elif view[0] == "s":
+            lo, hi = view[1], view[2]
+            x = x[lo:hi]
+            if len(view) > 3:
+                x = x.rc()
+    except Exception:
+        return ("skip",)
+    nested = any(all(a2 <= a and b <= b2 and (a, b) != (a2, b2) for a, b in FA_FEATS[n][0] for a2, b2 in [(min(p for p, _ in FA_FEATS[m][0]), max(q for _, q in FA_FEATS[m][0]))])
+                 for n in grp for m in grp if n != m)
+    kind = "nested" if nested else "flat"
+    feats = []
+    for name in grp:
+        try:
+            got = list(x.get_features(name=name, allow_partial=True))
+        except Exception:
+            return ("skip",)              # the query itself fails (finding C04-K1 for part-visible 2-span features)
+        if len(got) != 1:
+            return ("skip",)              # the part is not (uniquely) visible in this view: covered by the query contracts
+        feats.append(got[0])
+    try:
+        combined = feats[0].union(feats[1:])
+        got_u = str(combined.get_slice())
+        got_s = str(combined.shadow().get_slice())
+    except Exception as e:
+        return ("fail", f"{tag}/raises:{type(e).__name__}/{kind}/view={view[0]}", f"{case}: {type(e).__name__}: {e}")
+    strand = FA_FEATS[grp[0]][1]
+    keep = set()
+    for name in grp:
+        for a, b in FA_FEATS[name][0]:
+            keep.update(range(a, b))
+    want_u = "".join(FA_RAW[i] for i in sorted(keep) if lo <= i < hi)
+    want_s = "".join(FA_RAW[i] for i in range(lo, hi) if i not in keep)
+    if strand == "-":
+        want_u, want_s = rc_str(want_u), rc_str(want_s)
+    if got_u != want_u:
+        return ("fail", f"{tag}/union/residues/{kind}", f"{case}: union denotes {got_u!r}, its parts denote {want_u!r}")
+    if got_s != want_s:
+        return ("fail", f"{tag}/shadow/residues/{kind}", f"{case}: shadow of the union denotes {got_s!r}, expected {want_s!r}")
+    return ("ok", len(keep) > 0)
+
+
 BOUNDED = {
+    "feature_algebra": {
+        "gen": gen_feature_algebra, "contract": contract_feature_algebra,
+        "functions": ["core.annotation.Feature.union", "Feature.shadow", "Feature.get_slice", "core.location.FeatureMap.covered / shadow"],
+        "bound": "one 38-nt sequence with 8 features (nested, overlapping, abutting, disjoint, two-span, both strands) x 9 groups "
+                 "of 2-4 features x 7 views (whole, rc, slices, slice of rc, rc of slice) x old / new sequence type",
+        "rule": "union(parts).get_slice() == the residues at the union of the parts' positions that the view retains, read on "
+                "the first part's strand; shadow().get_slice() == every other retained residue; groups whose parts are not "
+                "all visible in the view are skipped",
+        "shards": 4,
+    },
     "aln_views": {
         "gen": gen_aln, "contract": contract_aln,
         "functions": ["Alignment.add_feature", "Alignment.get_features", "Alignment._get_seq_features",
